@@ -31,6 +31,9 @@ enum Op {
     Out(u16, u8),
     Wr(u16, u8),
     Rd(u16),
+    /// 48K only: a minimal SZX snapshot (header + SPCR chunk with this ch7ffd byte) is loaded; the 48K has no
+    /// paging to restore — its map and its deafness to paging writes stay as they are
+    Szx(u8),
 }
 
 impl Op {
@@ -39,6 +42,7 @@ impl Op {
             Op::Out(p, v) => format!("out {:04x} {:02x}", p, v),
             Op::Wr(a, v) => format!("wr {:04x} {:02x}", a, v),
             Op::Rd(a) => format!("rd {:04x}", a),
+            Op::Szx(v) => format!("szx {:02x}", v),
         }
     }
     fn parse(s: &str) -> Option<Op> {
@@ -48,6 +52,7 @@ impl Op {
             ["out", p, v] => Some(Op::Out(h(p)?, h(v)? as u8)),
             ["wr", a, v] => Some(Op::Wr(h(a)?, h(v)? as u8)),
             ["rd", a] => Some(Op::Rd(h(a)?)),
+            ["szx", v] => Some(Op::Szx(h(v)? as u8)),
             _ => None,
         }
     }
@@ -100,6 +105,18 @@ fn apply(m: &mut Machine, ops: &[Op], probes: &[u16], lines: &mut Vec<String>, c
             Op::Wr(a, v) => {
                 m.e.verif_write_mem(*a, *v, 3);
                 lines.push(format!("wr {:04x} {:02x}", a, v));
+            }
+            Op::Szx(v) => {
+                if !m.m128 {
+                    let mut f = b"ZXST".to_vec();
+                    f.extend_from_slice(&[1, 4, 1, 0]);
+                    f.extend_from_slice(b"SPCR");
+                    f.extend_from_slice(&8u32.to_le_bytes());
+                    f.extend_from_slice(&[0, *v, 0, 0, 0, 0, 0, 0]);
+                    let _ = m.e.load_snapshot(rustzx_core::host::Snapshot::Szx(VAsset::new(f)));
+                }
+                // the model of the 48K has nothing to do
+                lines.push("pg".into());
             }
             Op::Rd(a) => {
                 let got = m.e.verif_read_mem(*a, 3);
@@ -173,7 +190,28 @@ fn run_case(model: &mut Model, m128: bool, roms: Option<(usize, usize)>, ops: &[
     let mut lines = vec![];
     let mut checks = vec![];
     let mut m = fresh(m128, roms, &mut lines);
-    apply(&mut m, ops, probes, &mut lines, &mut checks);
+    // the code under test may panic (remap of a page that does not exist): one operation at a time, so that the
+    // history up to the panic is the failing input
+    for (k, op) in ops.iter().enumerate() {
+        let (l0, c0) = (lines.len(), checks.len());
+        let r = std::panic::catch_unwind(std::panic::AssertUnwindSafe(|| {
+            apply(&mut m, std::slice::from_ref(op), probes, &mut lines, &mut checks);
+        }));
+        if r.is_err() {
+            lines.truncate(l0);
+            checks.truncate(c0);
+            let answers = model.ask_many(&lines);
+            if let Some(f) = compare(m.m128, &answers, &checks, None) {
+                return Some(f);
+            }
+            return Some(Fail {
+                kind: Kind::SpecViolated,
+                what: format!("operation #{} ({}) panics inside rustzx: {}", k, op.text(), crate::util::LAST_PANIC.lock().map(|m| m.clone()).unwrap_or_default()),
+                got: "panic".into(),
+                want: "no panic: every paging value and every address is served".into(),
+            });
+        }
+    }
     let answers = model.ask_many(&lines);
     compare(m.m128, &answers, &checks, rep)
 }
@@ -229,6 +267,7 @@ fn op_class(o: &Op) -> String {
         Op::Out(p, v) => format!("out[{}{}{}]{}", if v & 0x20 != 0 { "L" } else { "" }, if v & 0x10 != 0 { "R" } else { "" }, if v & 8 != 0 { "S" } else { "" }, if *p == 0x7FFD { "" } else { "~" }),
         Op::Wr(a, _) => format!("wr@{:x}", a >> 14),
         Op::Rd(a) => format!("rd@{:x}", a >> 14),
+        Op::Szx(_) => "szx-load".into(),
     }
 }
 
@@ -276,6 +315,7 @@ fn random_ops(rng: &mut Rng, n: usize) -> Vec<Op> {
                 }
                 Op::Out(paging_port(rng), v)
             }
+            3 if rng.chance(1, 6) => Op::Szx(rng.u8()),
             3..=7 => Op::Wr(addr(rng), rng.u8() | 1),
             _ => Op::Rd(addr(rng)),
         })
